@@ -317,20 +317,29 @@ class ExecutionContext:
                     ref = instruction.Reference
                     var = localScope[instruction.Value.Reference]
 
-                    assert instruction.Type.IsScalar()
+                    # Vectors and matrices are converted per component
+                    targetType = instruction.Type
+                    if targetType.IsVector() or targetType.IsMatrix():
+                        targetType = targetType.ElementType
 
-                    if isinstance(instruction.Type, LinearIR.IntegerType):
-                        if not instruction.Type.Unsigned:
-                            var = math.floor(var)
+                    assert targetType.IsScalar()
+
+                    def Cast(value):
+                        if isinstance(value, list):
+                            return [Cast(v) for v in value]
+
+                        if isinstance(targetType, LinearIR.IntegerType):
+                            if not targetType.Unsigned:
+                                return math.floor(value)
+                            else:
+                                return abs(math.floor(value))
                         else:
-                            var = abs(math.floor(var))
-                    else:
-                        # Must be float
-                        assert isinstance(instruction.Type, LinearIR.FloatType)
+                            # Must be float
+                            assert isinstance(targetType, LinearIR.FloatType)
 
-                        var = float(var)
+                            return float(value)
 
-                    localScope[ref] = var
+                    localScope[ref] = Cast(var)
                 case LinearIR.OpCode.CONSTRUCT_PRIMITIVE:
                     ref = instruction.Reference
                     if instruction.Type.Kind == LinearIR.TypeKind.Vector:
